@@ -28,6 +28,7 @@ import (
 
 type shSynth struct {
 	denom string
+	base  string // denomination of the underlying lock
 	dur   int64
 	end   int64 // 0 = not unlocking
 }
@@ -75,7 +76,7 @@ func (e *lockupEnv) synthOracle(op string) {
 	}
 	sort.Strings(sds)
 	for _, sd := range sds {
-		base := sd[:strings.Index(sd, "/super")]
+		base := e.synthBase[sd]
 		for _, d := range pts {
 			var intent, coded int64
 			if d >= 0 {
@@ -125,6 +126,7 @@ func (e *lockupEnv) keeperTail(steps int, lastID *uint64, ms lockuptypes.MsgServ
 	e.synthDenoms = map[string]bool{}
 	e.synthCoded = map[string]map[int64]int64{}
 	e.synthCause = map[string]string{}
+	e.synthBase = map[string]string{}
 	e.pendingCause = ""
 	o.Count("tail.histories")
 	ops := []string{"synthcreate", "synthdelete", "addtolock", "slash", "keeperforceunlock", "beginforceunlock", "endblock", "rebuild", "refused", "lock", "exportimport"}
@@ -222,6 +224,15 @@ func (e *lockupEnv) keeperTail(steps int, lastID *uint64, ms lockuptypes.MsgServ
 					sd = used[r.Intn(len(used))]
 				}
 			}
+			// a synthetic denomination is a NAME in the same index and accumulation namespace as the real ones; superfluid
+			// derives it from share denominations nobody can extend, so it never equals a real denomination: kept so here
+			// (the +names alphabet has real coins called bar/superbonding/v1, foo/superunbonding/v1)
+			for _, real := range e.denoms {
+				if real == sd {
+					sd = l.denom + "/superbonding/v3"
+					o.Count("tail.synthcreate.name-of-a-real-denom-avoided")
+				}
+			}
 			u := l.dur
 			if inCluster {
 				sd, u = clusterSD, U
@@ -257,7 +268,8 @@ func (e *lockupEnv) keeperTail(steps int, lastID *uint64, ms lockuptypes.MsgServ
 			}
 			if ok {
 				res = "ok"
-				sy := &shSynth{denom: sd, dur: u}
+				sy := &shSynth{denom: sd, base: l.denom, dur: u}
+				e.synthBase[sd] = l.denom
 				if unl {
 					sy.end = now + u
 					e.noteTime(sy.end)
@@ -267,6 +279,9 @@ func (e *lockupEnv) keeperTail(steps int, lastID *uint64, ms lockuptypes.MsgServ
 				e.noteDur(u)
 				e.codedAdd(sd, u, l.amt)
 				o.Count("tail.synthcreate." + map[bool]string{true: "duration-equals-lock", false: "duration-differs-from-lock"}[u == l.dur])
+				if e.dclass[l.denom] != "" {
+					o.Count("tail.synthcreate.on-related-name." + e.dclass[l.denom])
+				}
 			}
 		case "synthdelete":
 			l := withSynth(func(*shLock, *shSynth) bool { return true })
@@ -292,9 +307,9 @@ func (e *lockupEnv) keeperTail(steps int, lastID *uint64, ms lockuptypes.MsgServ
 				delete(e.synth, l.id)
 			}
 		case "addtolock":
-			l := withSynth(func(l *shLock, _ *shSynth) bool { return !isCLDenom(l.denom) })
+			l := withSynth(func(l *shLock, _ *shSynth) bool { return !e.isShare(l.denom) })
 			if l == nil || r.Intn(4) == 0 {
-				l = e.randLock(func(l *shLock) bool { return !isCLDenom(l.denom) })
+				l = e.randLock(func(l *shLock) bool { return !e.isShare(l.denom) })
 			}
 			if l == nil {
 				break
@@ -323,7 +338,7 @@ func (e *lockupEnv) keeperTail(steps int, lastID *uint64, ms lockuptypes.MsgServ
 			coins := sdk.NewCoins(e.coin(l.denom, x))
 			line = fmt.Sprintf("slash %d %d %s", now, l.id, coins)
 			var ok bool
-			if isCLDenom(l.denom) {
+			if e.isShare(l.denom) {
 				pool, err := h.App.ConcentratedLiquidityKeeper.GetConcentratedPoolById(e.ctx(), e.clPools[l.denom])
 				if err != nil {
 					break
@@ -341,14 +356,17 @@ func (e *lockupEnv) keeperTail(steps int, lastID *uint64, ms lockuptypes.MsgServ
 			}
 			res = "ok"
 			l.amt -= x
-			if !isCLDenom(l.denom) {
+			if !e.isShare(l.denom) {
 				e.funded[l.owner][l.denom] -= x // gone to the community pool
 			}
 			if sy := e.synth[l.id]; sy != nil {
 				e.codedAdd(sy.denom, sy.dur, -x)
 				o.Count("tail.slash.with-synthetic-lock")
 			}
-			o.Count("tail.slash." + map[bool]string{false: "ordinary-denom", true: "cl-share-denom"}[isCLDenom(l.denom)])
+			o.Count("tail.slash." + map[bool]string{false: "ordinary-denom", true: "cl-share-denom"}[e.isShare(l.denom)])
+			if e.dclass[l.denom] != "" {
+				o.Count("tail.slash.related-name." + e.dclass[l.denom])
+			}
 		case "keeperforceunlock":
 			l := e.randLock(func(l *shLock) bool { return true })
 			if l == nil {
@@ -377,7 +395,10 @@ func (e *lockupEnv) keeperTail(steps int, lastID *uint64, ms lockuptypes.MsgServ
 			}
 			if !isCLDenom(l.denom) {
 				exp[l.owner+"/"+l.denom] += l.amt
+			} else if !e.isShare(l.denom) {
+				e.burned[l.owner][l.denom] += l.amt
 			}
+			o.Count("released." + e.classOf(l.denom) + ".by-keeper-forceunlock")
 			delete(e.shadow, l.id)
 		case "beginforceunlock":
 			l := e.randLock(func(l *shLock) bool { sy := e.synth[l.id]; return l.end == 0 && (sy == nil || sy.end != 0) })
@@ -445,7 +466,10 @@ func (e *lockupEnv) keeperTail(steps int, lastID *uint64, ms lockuptypes.MsgServ
 				if l.end != 0 && l.end <= now {
 					if !isCLDenom(l.denom) {
 						exp[l.owner+"/"+l.denom] += l.amt
+					} else if !e.isShare(l.denom) {
+						e.burned[l.owner][l.denom] += l.amt
 					}
+					o.Count("released." + e.classOf(l.denom) + ".by-keeper-endblock")
 					delete(e.shadow, id)
 					o.Count("tail.endblock.lock-withdrawn")
 				}
@@ -463,16 +487,33 @@ func (e *lockupEnv) keeperTail(steps int, lastID *uint64, ms lockuptypes.MsgServ
 				break
 			}
 			res = "ok"
-			// the synthetic denominations of dn are rewritten from the live synthetic locks
+			// what the two calls do to the store: RebuildAccumulationStoreForDenom clears the key range `0x20 dn "/"` — the
+			// store of dn, of every synthetic denomination of dn, and of EVERY denomination whose name extends dn + "/" (and of
+			// their synthetic denominations) — and rewrites dn's from the live locks; RebuildSuperfluidAccumulationStoresForDenom
+			// clears `0x20 dn "/super"…` and rewrites the synthetic denominations of dn's locks from the live synthetic locks.
+			// A cleared store that is not rewritten is finding F55 (keyed; +names puts such pairs into one history).
+			delete(e.accWiped, dn)
+			for _, x := range e.denoms {
+				if strings.HasPrefix(x, dn+"/") {
+					e.accWiped[x] = true
+					o.Count("tail.rebuild.clears-store-of-extension-denom." + e.classOf(x))
+				}
+			}
 			for sd := range e.synthDenoms {
-				if strings.HasPrefix(sd, dn+"/super") {
-					e.synthCoded[sd] = map[int64]int64{}
+				if !strings.HasPrefix(sd, dn+"/") {
+					continue
+				}
+				e.synthCoded[sd] = map[int64]int64{}
+				e.synthCause[sd] = ""
+				if e.synthBase[sd] == dn {
 					for id, sy := range e.synth {
 						if sy.denom == sd {
 							e.codedAdd(sd, sy.dur, e.shadow[id].amt)
 						}
 					}
-					e.synthCause[sd] = ""
+				} else {
+					e.pendingCause = "store-cleared-by-rebuild-of-prefix-denom"
+					o.Count("tail.rebuild.clears-store-of-extension-denoms-synthetic-denom")
 				}
 			}
 		case "exportimport": // REAL ExportGenesis -> store wiped -> REAL InitGenesis with synthetic locks alive (oracle-only)
@@ -536,7 +577,7 @@ func (e *lockupEnv) keeperTail(steps int, lastID *uint64, ms lockuptypes.MsgServ
 			owner := e.names[r.Intn(3)]
 			var base []string
 			for _, d := range e.denoms {
-				if !isCLDenom(d) {
+				if !e.isShare(d) {
 					base = append(base, d)
 				}
 			}
